@@ -214,6 +214,83 @@ impl RefBigram {
         (pre.clamp(i64::from(i16::MIN), i64::from(i16::MAX)) + rest, pre)
     }
 
+    /// Decides whether a cost table `get(r, l)` is what a dual connector may return: there is ONE
+    /// set M of template positions (the pre-summed part; which positions, and how many, is the
+    /// implementation's choice and not fixed by the statement) such that for EVERY id pair
+    /// get(r, l) = clamp16(sum over M) + sum over the other positions. The split that the pinned
+    /// tree's greedy rule makes under `order_seed` is tried first; only if it does not explain the
+    /// table are all subsets searched. Ok((clamped, by_reference_rule)); Err = explanation.
+    pub fn explain_dual(
+        &self,
+        order_seed: u64,
+        nr: usize,
+        nl: usize,
+        get: &dyn Fn(usize, usize) -> i64,
+    ) -> Result<(bool, bool), String> {
+        let lo = i64::from(i16::MIN);
+        let hi = i64::from(i16::MAX);
+        let m0 = self.split(order_seed);
+        let mut clamped = false;
+        let mut first_mismatch = None;
+        'outer: for r in 0..nr {
+            for l in 0..nl {
+                let (want, pre) = self.dual(&m0, r, l);
+                clamped |= pre < lo || pre > hi;
+                let got = get(r, l);
+                if got != want {
+                    first_mismatch = Some(format!(
+                        "cost(right={r}, left={l}) = {got}; with the pre-summed positions {m0:?} of the reference split rule the pre-summed part {pre} clamped to 16 bits plus the other positions gives {want} (defining sum {})",
+                        self.sum(r, l)
+                    ));
+                    break 'outer;
+                }
+            }
+        }
+        let Some(first_mismatch) = first_mismatch else {
+            return Ok((clamped, true));
+        };
+        // pairs for which no subset of positions can leave the 16-bit range must equal the
+        // defining sum whatever the split is
+        let mut interesting: Vec<(i64, Vec<i64>)> = vec![];
+        for r in 0..nr {
+            for l in 0..nl {
+                let (neg, pos) = self.signed_sums(r, l);
+                let got = get(r, l);
+                if neg >= lo && pos <= hi {
+                    if got != self.sum(r, l) {
+                        return Err(format!(
+                            "cost(right={r}, left={l}) = {got}, the defining sum is {} and no subset of the template positions can leave the 16-bit range for this pair",
+                            self.sum(r, l)
+                        ));
+                    }
+                } else {
+                    interesting.push((got, (0..self.k).map(|k| self.cost_at(k, r, l)).collect()));
+                }
+            }
+        }
+        if self.k > 22 {
+            return Err(first_mismatch);
+        }
+        for mask in 0u32..(1u32 << self.k) {
+            let ok = interesting.iter().all(|(got, c)| {
+                let mut pre = 0;
+                let mut rest = 0;
+                for (k, &x) in c.iter().enumerate() {
+                    if mask >> k & 1 == 1 {
+                        pre += x;
+                    } else {
+                        rest += x;
+                    }
+                }
+                pre.clamp(lo, hi) + rest == *got
+            });
+            if ok {
+                return Ok((true, false));
+            }
+        }
+        Err(format!("{first_mismatch}; and no other choice of pre-summed positions explains the values of all id pairs"))
+    }
+
     /// (sum of the negative, sum of the positive) per-position costs of the pair: every partial
     /// sum over a subset of the template positions lies between the two.
     pub fn signed_sums(&self, r: usize, l: usize) -> (i64, i64) {
@@ -380,24 +457,17 @@ impl Scenario for BigramScenario {
                     ctx.observations += 1;
                     // the executable reference model of the dual connector: same split, pre-summed
                     // part clamped once to 16 bits, the other positions added
-                    let matrix_positions = reference.split(seed);
-                    let mut clamped = false;
-                    for r in 0..nr {
-                        for l in 0..nl {
-                            let (want, pre) = reference.dual(&matrix_positions, r, l);
-                            clamped |= pre < i64::from(i16::MIN) || pre > i64::from(i16::MAX);
-                            let got = i64::from(o.costs[r * nl + l]);
-                            if got != want {
-                                return Err(Violation::new(
-                                    "C07.dual_vs_model",
-                                    format!(
-                                        "dual connector (template trial order seed {seed}, K={}, pre-summed positions {matrix_positions:?}): cost(right={r}, left={l}) = {got}; pre-summed part {pre} clamped to 16 bits plus the other positions gives {want} (defining sum {})",
-                                        reference.k,
-                                        reference.sum(r, l)
-                                    ),
-                                ));
-                            }
-                        }
+                    let costs = &o.costs;
+                    let (clamped, by_rule) = reference
+                        .explain_dual(seed, nr, nl, &|r, l| i64::from(costs[r * nl + l]))
+                        .map_err(|e| {
+                            Violation::new(
+                                "C07.dual_vs_model",
+                                format!("dual connector (template trial order seed {seed}, K={}): {e}", reference.k),
+                            )
+                        })?;
+                    if !by_rule {
+                        ctx.count("dual_split_other_than_reference_rule");
                     }
                     if clamped {
                         // outside "whenever the pre-summed part fits in 16 bits": the values were
@@ -464,20 +534,30 @@ impl Scenario for BigramScenario {
                         v
                     };
                     let (pl, pr) = (new_of(&lmap, nl), new_of(&rmap, nr));
-                    let matrix_positions = reference.split(seed);
                     for (name, conn) in [("raw", CONN_RAW), ("dual", CONN_DUAL)] {
                         let d = build_plain("C07.remapped", &plan.files, conn, seed, ctx)?;
                         let d = crate::dictops::must("C07.remap", "map_connection_ids_from_iter", crate::dictops::map_ids(d, &lmap, &rmap))?;
                         let (_, o) = observe(d, &probes[..0], true);
                         let o = o.map_err(|p| panic_violation("C07.remapped.observe", "cost lookups of the remapped dictionary", &p))?;
                         ctx.observations += 1;
+                        if conn == CONN_DUAL {
+                            let costs = &o.costs;
+                            reference
+                                .explain_dual(seed, nr, nl, &|r, l| i64::from(costs[pr[r] * nl + pl[l]]))
+                                .map_err(|e| {
+                                    Violation::new(
+                                        "C07.remapped",
+                                        format!(
+                                            "dual connector after remapping (left {:?}, right {:?}; trial order seed {seed}, K={}), pairs named by their ids before the remapping: {e}",
+                                            op.str(0), op.str(1), reference.k
+                                        ),
+                                    )
+                                })?;
+                            continue;
+                        }
                         for r in 0..nr {
                             for l in 0..nl {
-                                let want = if conn == CONN_RAW {
-                                    reference.sum(r, l)
-                                } else {
-                                    reference.dual(&matrix_positions, r, l).0
-                                };
+                                let want = reference.sum(r, l);
                                 let got = i64::from(o.costs[pr[r] * nl + pl[l]]);
                                 if got != want {
                                     return Err(Violation::new(
